@@ -150,8 +150,9 @@ class Printer:
     comments and blank lines (statements still start on fresh lines unless
     `wild` is set, in which case newlines may fall between any two tokens)."""
 
-    def __init__(self, layout=None, wild=False, indent='  ', parens=0.0, comments=0.0, blank=0.0):
+    def __init__(self, layout=None, wild=False, indent='  ', parens=0.0, comments=0.0, blank=0.0, raw_newlines=0.0):
         self.rng = layout
+        self.raw_newlines = raw_newlines if layout is not None else 0.0
         self.wild = wild and layout is not None
         self.ind = indent
         self.parens = parens if layout is not None else 0.0
@@ -245,7 +246,10 @@ class Printer:
             else:
                 self.w(num_varied(v, self.rng) if self.rng is not None else num_literal(v))
         elif k == 'str':
-            if self.rng is not None and self.rng.random() < 0.5:
+            if self.raw_newlines and '\n' in n.a and self.rng.random() < self.raw_newlines:
+                # a literal spanning several physical lines (w() counts them)
+                self.w(quote_varied(n.a, self.rng).replace('\\n', '\n'))
+            elif self.rng is not None and self.rng.random() < 0.5:
                 self.w(quote_varied(n.a, self.rng))
             else:
                 self.w(quote(n.a))
